@@ -457,6 +457,10 @@ func (conn *Conn) finishCall(ctx *Context, call *Call, seq uint64) {
 			call.Value = make([]byte, len(ctx.value))
 		}
 		copy(call.Value, ctx.value)
+	} else {
+		// a reply of no bytes: a Call that is used again (RoundTrip) must not present the reply of
+		// its previous round trip once more
+		call.Value = nil
 	}
 	err := conn.codec.ReadResponseBody(call.Value, call.Reply)
 	if err != nil {
